@@ -191,5 +191,16 @@ Fixpoint lex_all (fuel : nat) (s : bytes) : list token :=
 
 Definition lex (s : bytes) : list token := lex_all (S (List.length s)) s.
 
+(* ---------- the Lexer object: Next and Peek ----------
+   state = the remaining input and whether the token Next returned last was EOF (Peek's `currItem.Typ == TEOF` shortcut).
+   errorf empties the input, which is what next_token's error case returns as the rest. Peek has a value receiver: it works
+   on a copy and hands no state back. *)
+Record lstate := { rest : bytes; last_eof : bool }.
+Definition linit (s : bytes) : lstate := {| rest := s; last_eof := false |}.
+Definition is_eof (t : token) : bool := match typ t with TEOF => true | _ => false end.
+Definition lnext (st : lstate) : token * lstate :=
+  let '(t, r) := next_token (rest st) in (t, {| rest := r; last_eof := is_eof t |}).
+Definition lpeek (st : lstate) : token := if last_eof st then eof_tok else fst (next_token (rest st)).
+
 End Lexer.
 
